@@ -613,7 +613,61 @@ fn failing_launch_among_live_children(ctx: &mut Ctx, rng: &mut Rng, i: u64) {
     run::end_case();
 }
 
+/// Another thread of the caller keeps changing the environment (and so keeps taking the environment lock) while
+/// commands are started: whatever lock some other thread holds at the moment of a fork is of no concern to the child,
+/// which would otherwise sit there for ever with a copy of every pipe end of the caller.
+fn spawns_while_the_environment_is_being_written(ctx: &mut Ctx, rng: &mut Rng, i: u64) {
+    use std::sync::atomic::{AtomicBool, Ordering::SeqCst};
+    run::begin_case();
+    let dir = ctx.scratch("c08e");
+    let exe = spawn::report_exe(ctx, &dir, "e", "x");
+    let name = exe.file_name().unwrap().to_owned();
+    let old_path = std::env::var_os("PATH");
+    std::env::set_var("PATH", &dir);
+    let stop = std::sync::Arc::new(AtomicBool::new(false));
+    let stop2 = stop.clone();
+    let writer = std::thread::spawn(move || {
+        let mut n = 0u64;
+        while !stop2.load(SeqCst) {
+            std::env::set_var("VERIF_C08_SPIN", n.to_string());
+            std::env::remove_var("VERIF_C08_SPIN");
+            n += 1;
+        }
+    });
+    let rounds = rng.range(20, 60);
+    let how = i % 3;
+    let m = run::monitored(|| -> Result<u64, String> {
+        let mut ok = 0;
+        for _ in 0..rounds {
+            let e = match how {
+                0 => Exec::cmd(&name).env_clear().env("ONLY", "this"),
+                1 => Exec::cmd(&name).env_clear(),
+                _ => Exec::cmd(&name).env("EXTRA", "1"),
+            };
+            e.join().map_err(|e| e.to_string())?;
+            ok += 1;
+        }
+        Ok(ok)
+    });
+    stop.store(true, SeqCst);
+    let _ = writer.join();
+    match old_path {
+        Some(p) => std::env::set_var("PATH", p),
+        None => std::env::remove_var("PATH"),
+    }
+    ctx.count("spawns_while_another_thread_writes_the_environment", rounds as i64);
+    ctx.distinct(&format!("envwriter|{}|{}", how, rounds % 7));
+    if let Some(c) = &m.cert {
+        ctx.violation("C08/forked-child-stuck-on-a-lock-of-the-caller", "a command was being started while another thread of the caller held a lock; the forked child waits for that lock for ever, holding a copy of every pipe end of the caller, and the launch never returns", run::cert_json(c));
+    } else if let Some(Err(e)) = &m.result {
+        ctx.inconclusive("launch failed while the environment was being written", J::s(e));
+    }
+    run::end_case();
+}
+
 pub fn run(ctx: &mut Ctx) {
+    let ne = ctx.n(48, 800);
+    ctx.family("spawns-while-the-environment-is-written", ne, spawns_while_the_environment_is_being_written);
     let nf = ctx.n(100, 2000);
     ctx.family("failing-launch-among-live-children", nf, failing_launch_among_live_children);
     let nw = ctx.n(210, 4000);
